@@ -131,7 +131,12 @@ func c04CheckRoute(L *ev.Layer, r *Route, fixed []float64, c map[string]interfac
 		for i := 0; i < len(ring); i++ {
 			var t *Target
 			if fullLookup {
-				t = tbl.Lookup(req, "", rrPicker, prefixMatcher, gc, false)
+				// the second cycle is made of traced requests (Trace header): tracing explains a lookup, it must not take part in it
+				trace := ""
+				if round == 1 {
+					trace = "verif-trace"
+				}
+				t = tbl.Lookup(req, trace, rrPicker, prefixMatcher, gc, false)
 			} else if len(r.Targets) == 1 {
 				t = r.Targets[0]
 			} else {
